@@ -29,4 +29,54 @@ theorem lexL_leading_spaces (n : Nat) (rest : List Char) (hr : restOK rest) (hn 
   rw [e, lexGo_spaces _ n rest hr hn, lexGo_fuel_enough (rest.length + 1) rest (by omega) n]
   exact lexGo_pos_irrelevant _ _ _ _ _ _ _ rfl
 
+/-- the tokens already emitted are a prefix of the result: scanning is compositional -/
+theorem lexGo_acc (rules : List (TokKind × Re × Bool)) (fuel : Nat) (s : List Char) (p : Pos) (acc : List Tok) :
+    lexGo rules fuel s p acc = acc.reverse ++ lexGo rules fuel s p [] := by
+  induction fuel generalizing s p acc with
+  | zero => simp [lexGo]
+  | succ fuel ih =>
+    cases s with
+    | nil => simp [lexGo]
+    | cons x s =>
+      simp only [lexGo]
+      cases hb : bestRule rules (x :: s) with
+      | none => simp
+      | some r =>
+        obtain ⟨k, skip, n⟩ := r
+        simp only
+        cases skip with
+        | true => simpa using ih _ _ acc
+        | false =>
+          simp only [Bool.false_eq_true, if_false]
+          rw [ih _ _ (_ :: acc), ih _ _ [_]]
+          simp
+
+/-- a text that starts with a line end: one NEWLINE, then the tokens of the rest; the three styles
+give the same kinds -/
+theorem lexL_leading_eol_kinds (rest : List Char) (hr : rest = [] ∨ ∃ y u, rest = y :: u ∧ y ≠ '\n') :
+    (lexL ('\n' :: rest)).map (·.kind) = .NEWLINE :: (lexL rest).map (·.kind) ∧
+    (lexL ('\r' :: '\n' :: rest)).map (·.kind) = .NEWLINE :: (lexL rest).map (·.kind) ∧
+    (lexL ('\r' :: rest)).map (·.kind) = .NEWLINE :: (lexL rest).map (·.kind) := by
+  unfold lexL
+  refine ⟨?_, ?_, ?_⟩
+  · have e : ('\n' :: rest).length + 1 = (rest.length + 1) + 1 := by simp
+    rw [e, lexGo_eol _ _ 1 (.lf rest), lexGo_acc]
+    simp only [List.drop_succ_cons, List.drop_zero, List.reverse_cons, List.reverse_nil, List.nil_append,
+      List.singleton_append, List.map_cons]
+    congr 1
+    exact lexGo_kinds_irrelevant _ _ _ _ _ _ _ rfl
+  · have e : ('\r' :: '\n' :: rest).length + 1 = (rest.length + 1 + 1) + 1 := by simp
+    rw [e, lexGo_eol _ _ 2 (.crlf rest), lexGo_acc]
+    simp only [List.drop_succ_cons, List.drop_zero, List.reverse_cons, List.reverse_nil, List.nil_append,
+      List.singleton_append, List.map_cons]
+    congr 1
+    rw [lexGo_fuel_enough (rest.length + 1) rest (by omega) 1]
+    exact lexGo_kinds_irrelevant _ _ _ _ _ _ _ rfl
+  · have e : ('\r' :: rest).length + 1 = (rest.length + 1) + 1 := by simp
+    rw [e, lexGo_eol _ _ 1 (.cr rest hr), lexGo_acc]
+    simp only [List.drop_succ_cons, List.drop_zero, List.reverse_cons, List.reverse_nil, List.nil_append,
+      List.singleton_append, List.map_cons]
+    congr 1
+    exact lexGo_kinds_irrelevant _ _ _ _ _ _ _ rfl
+
 end Blackbird
